@@ -164,7 +164,7 @@ Definition meta_refinesb (declared actual : list (option ytree)) : bool :=
   all2 (fun kt da => let '(d, a) := da in
           match d, a with
           | Some v, Some w => tree_eqb true v w
-          | None, Some w => has_type (snd kt) w
+          | None, Some w => has_type (if fst kt =? ref_tags_key then 4 else snd kt) w  (* Tags denote a word list *)
           | _, None => false
           end) ref_meta_table (combine declared actual)
   && Nat.eqb (length declared) (length ref_meta_table) && Nat.eqb (length actual) (length ref_meta_table).
